@@ -114,6 +114,7 @@ func (x *Exec) bufMag(b BigV) *smt.Term {
 		return c.Mag
 	}
 	// deferred coefficient: V * 10^-E
+	x.linkMag(c.V)
 	if ec, ok := c.E.ConstInt64(); ok && ec == 0 {
 		return x.B.Floor(c.V)
 	}
@@ -361,7 +362,23 @@ func registerDecimal(p *Program) {
 				return x.condResult(ctx, rounded, inexact)
 			case "Mul":
 				neg := B.Neq(a.Neg, b.Neg)
-				mag := B.Mul(a.Mag, b.Mag)
+				var mag *smt.Term
+				if x.Cfg.Bound("round_abstract", 0) == 1 && !a.Mag.IsConst() && !b.Mag.IsConst() {
+					// handler-level runs: the product of two symbolic magnitudes is an uninterpreted
+					// function with the order facts the handlers rely on (exact products are the
+					// subject of the C07/C19 kernels)
+					mag = B.App("realmul", smt.SReal, a.Mag, b.Mag)
+					if !x.lenAxiom[mag.ID] {
+						x.lenAxiom[mag.ID] = true
+						one := B.RealInt(1)
+						x.Assume(B.And(B.Ge(mag, zero),
+							B.Eq(B.Eq(mag, zero), B.Or(B.Eq(a.Mag, zero), B.Eq(b.Mag, zero))),
+							B.Implies(B.Le(b.Mag, one), B.Le(mag, a.Mag)), B.Implies(B.Ge(b.Mag, one), B.Ge(mag, a.Mag)),
+							B.Implies(B.Le(a.Mag, one), B.Le(mag, b.Mag)), B.Implies(B.Ge(a.Mag, one), B.Ge(mag, b.Mag))), "abstract product")
+					}
+				} else {
+					mag = B.Mul(a.Mag, b.Mag)
+				}
 				e := B.Add(a.Exp, b.Exp)
 				mag2, e2, rounded, inexact := x.roundTo(ctx, mag, e)
 				x.storeDec(dp, B.Int(0), neg, e2, mag2)
@@ -380,6 +397,29 @@ func registerDecimal(p *Program) {
 					x.storeDec(dp, B.Int(0), neg, B.Sub(a.Exp, b.Exp), zero)
 					return x.condResult(ctx, B.False, B.False)
 				}
+				// division by a power of ten 1*10^k: apd's long division reproduces the dividend's
+				// coefficient digit by digit, so with at most P digits the result is exact with
+				// exponent e_x - k (no search for the quotient's exponent is needed)
+				if bm, ok := b.Mag.ConstInt64(); ok && b.Mag.Op == "ci" || (b.Mag.Op == "cr" && b.Mag.Rat.IsInt()) {
+					_ = bm
+					if bk, ok2 := b.Exp.ConstInt64(); ok2 && bk >= 0 && bk < 60 {
+						var bmag *big.Int
+						if b.Mag.Op == "ci" {
+							bmag = b.Mag.Int
+						} else {
+							bmag = b.Mag.Rat.Num()
+						}
+						if bmag.Cmp(pow10(int(bk))) == 0 {
+							fits := B.Lt(a.Mag, x.p10(B.Add(a.Exp, B.Int(int64(ctx.Precision)))))
+							if x.Branch(fits) {
+								x.storeDec(dp, B.Int(0), neg, B.Sub(a.Exp, B.Int(bk)), B.Mul(a.Mag, B.RatC(new(big.Rat).SetFrac(big.NewInt(1), bmag))))
+								return x.condResult(ctx, B.False, B.False)
+							}
+						}
+					}
+				}
+				x.linkMag(a.Mag)
+				x.linkMag(b.Mag)
 				q := B.RDiv(a.Mag, b.Mag)
 				P := int64(ctx.Precision)
 				m := B.Fresh("qlead", smt.SInt)
@@ -471,6 +511,7 @@ func registerDecimal(p *Program) {
 		B := x.B
 		a := x.decOf(x.load(c.Args[1]))
 		x.requireFinite(a, "Reduce")
+		x.linkMag(a.Mag)
 		if x.Branch(B.Eq(a.Mag, B.RealInt(0))) {
 			x.storeDec(c.Args[0], B.Int(0), B.False, B.Int(0), B.RealInt(0))
 			return TupleV{c.Args[0], IntV{B.Int(0)}}
@@ -684,6 +725,7 @@ func registerDecimal(p *Program) {
 		ok := x.decIsIntLiteral(s.Atom)
 		if x.Branch(ok) {
 			neg, mag := x.decAtomParts(s.Atom)
+			x.linkMag(mag)
 			x.writeBig(c.Args[0], B.And(neg, B.Not(B.Eq(mag, B.RealInt(0)))), BufContent{Mag: B.Floor(mag)}, false)
 			return TupleV{c.Args[0], BoolV{B.True}}
 		}
@@ -762,10 +804,12 @@ func (x *Exec) mulDeferred(a, b BigV) (*smt.Term, bool) {
 	}
 	if e, ok := x.pow10Of[cb.Mag.ID]; ok && e == ca.E {
 		// value is an integer here because E > 0 and the coefficient is integral
+		x.linkMag(ca.V)
 		return x.B.Floor(ca.V), true
 	}
 	if c, ok := cb.Mag.ConstInt64(); ok {
 		if ec, ok2 := ca.E.ConstInt64(); ok2 && ec > 0 && ec < 19 && pow10(int(ec)).Int64() == c {
+			x.linkMag(ca.V)
 			return x.B.Floor(ca.V), true
 		}
 	}
@@ -785,11 +829,13 @@ func (x *Exec) quoDeferred(a, b BigV) (*smt.Term, bool) {
 	if e, ok := x.pow10Of[cb.Mag.ID]; ok {
 		// e must be -E
 		if e == x.B.Neg(ca.E) {
+			x.linkMag(ca.V)
 			return x.B.Floor(ca.V), true
 		}
 	}
 	if c, ok := cb.Mag.ConstInt64(); ok {
 		if ec, ok2 := ca.E.ConstInt64(); ok2 && ec < 0 && ec > -19 && pow10(int(-ec)).Int64() == c {
+			x.linkMag(ca.V)
 			return x.B.Floor(ca.V), true
 		}
 	}
@@ -814,6 +860,17 @@ func (x *Exec) decAtomExp(s *smt.Term) *smt.Term {
 // integrality questions stay in integer arithmetic.
 func (x *Exec) decAtomParts(s *smt.Term) (*smt.Term, *smt.Term) {
 	B := x.B
+	if x.Cfg.Bound("dec_coeff_form", 0) == 0 {
+		// default: the magnitude is an uninterpreted real; it is tied to an integer
+		// coefficient only where integrality matters (linkMag)
+		m := B.App("dec_mag", smt.SReal, s)
+		if !x.lenAxiom[m.ID] {
+			x.lenAxiom[m.ID] = true
+			x.Assume(B.Ge(m, B.RealInt(0)), "decimal magnitude >= 0")
+			m.Lo = big.NewInt(0)
+		}
+		return B.App("dec_neg", smt.SBool, s), m
+	}
 	c := B.App("dec_coeff", smt.SInt, s)
 	if !x.lenAxiom[c.ID] {
 		x.lenAxiom[c.ID] = true
@@ -1061,9 +1118,11 @@ func (x *Exec) zzverifDec(name string, c *CallCtx) (Value, bool) {
 		r := real(a[0])
 		return RealV{B.Ite(B.Lt(r, B.RealInt(0)), B.Neg(r), r)}, true
 	case "QFloor":
+		x.linkMag(real(a[0]))
 		return RealV{B.ToReal(B.Floor(real(a[0])))}, true
 	case "QTrunc":
 		r := real(a[0])
+		x.linkMag(r)
 		return RealV{B.Ite(B.Lt(r, B.RealInt(0)), B.Neg(B.ToReal(B.Floor(B.Neg(r)))), B.ToReal(B.Floor(r)))}, true
 	case "QPow10":
 		return RealV{x.p10(a[0].(IntV).T)}, true
@@ -1074,6 +1133,7 @@ func (x *Exec) zzverifDec(name string, c *CallCtx) (Value, bool) {
 	case "QLe":
 		return BoolV{B.Le(real(a[0]), real(a[1]))}, true
 	case "QIsInt":
+		x.linkMag(real(a[0]))
 		return BoolV{B.IsInt(real(a[0]))}, true
 	case "QParse":
 		// value of a decimal string (0 if it does not parse)
@@ -1165,3 +1225,30 @@ func (x *Exec) decStringOK(s StrV, places *smt.Term) *smt.Term {
 }
 
 var _ = types.Typ
+
+// linkMag ties every uninterpreted decimal magnitude occurring in t to its integer
+// coefficient: dec_mag(s) = dec_coeff(s) * 10^dec_exp(s). Called where integrality,
+// truncation or digit counts are about to be decided.
+func (x *Exec) linkMag(t *smt.Term) {
+	if t == nil || x.Cfg.Bound("dec_coeff_form", 0) == 1 {
+		return
+	}
+	seen := map[int]bool{}
+	var walk func(u *smt.Term)
+	walk = func(u *smt.Term) {
+		if seen[u.ID] {
+			return
+		}
+		seen[u.ID] = true
+		if u.Op == "app" && u.Name == "dec_mag" && !x.linked[u.ID] {
+			x.linked[u.ID] = true
+			s := u.Args[0]
+			c := x.B.App("dec_coeff", smt.SInt, s)
+			x.Assume(x.B.And(x.B.Ge(c, x.B.Int(0)), x.B.Eq(u, x.B.Mul(x.B.ToReal(c), x.p10(x.decAtomExp(s))))), "decimal magnitude = coefficient * 10^exponent")
+		}
+		for _, a := range u.Args {
+			walk(a)
+		}
+	}
+	walk(t)
+}
